@@ -53,10 +53,10 @@ struct item_hash_id {
 // so the functors here only observe: values are fixed at construction (before the item becomes reachable).
 struct InsF { long v; int* calls; template <class I> void operator()( I& ) const { if ( calls ) ++*calls; } };
 struct UpdF {
-    long v; bool* was_new;
-    template <class I, class Q> void operator()( bool bNew, I&, Q const& ) const { *was_new = bNew; }     // list/skip/tree style: existing item kept
-    template <class I> void operator()( I&, I* old ) const { *was_new = old == nullptr; }                    // iterable / feldman style: item replaced by the new one
-    template <class I> void operator()( I&, std::nullptr_t ) const { *was_new = true; }
+    long v; bool* was_new; int* calls;
+    template <class I, class Q> void operator()( bool bNew, I&, Q const& ) const { *was_new = bNew; if ( calls ) ++*calls; }     // list/skip/tree style: existing item kept
+    template <class I> void operator()( I&, I* old ) const { *was_new = old == nullptr; if ( calls ) ++*calls; }                    // iterable / feldman style: item replaced by the new one
+    template <class I> void operator()( I&, std::nullptr_t ) const { *was_new = true; if ( calls ) ++*calls; }
 };
 struct FindF {
     long* out;
@@ -108,6 +108,8 @@ template <class Set, class Smr, class Caps, const char* Prop( void )>
 struct SetAdapter
 {
     SetCfg cfg; std::unique_ptr<Smr> smr; std::unique_ptr<Set> s;
+    typedef std::true_type drain_observes;      // drain() only looks (find on every key): seqmc calls it after every operation
+    bool seq_mode = false;      // single-threaded conformance run (C20): stricter functor accounting, exact extract_min/max
     explicit SetAdapter( SetCfg c ): cfg( c ) {}
     static const char* property() { return Prop(); }
 
@@ -138,13 +140,27 @@ struct SetAdapter
     template <class S, class A, class B> long do_get( S&, int, bool& ok, A, B ) { ok = false; return 0; }
 
     template <class S> bool do_update( S& st, int k, long v, bool allow, bool& inserted, std::true_type )
-    { bool was_new = false; auto r = st.update( Item( k, v ), UpdF{ v, &was_new }, allow ); inserted = r.second; return r.first; }
+    {
+        bool was_new = false; int calls = 0;
+        auto r = st.update( Item( k, v ), UpdF{ v, &was_new, &calls }, allow ); inserted = r.second;
+        // sequential mode (C20): the functor runs exactly once when the call succeeds, with the new-item flag equal to the returned pair
+        if ( seq_mode ) {
+            if ( calls != ( r.first ? 1 : 0 )) q_err = "update functor called " + std::to_string( calls ) + " times for an update that returned first=" + ( r.first ? "true" : "false" );
+            else if ( r.first && was_new != r.second ) q_err = "update functor got the new-item flag " + std::to_string( was_new ) + " but update() returned second=" + std::to_string( r.second );
+            if ( !r.first && r.second ) q_err = "update() returned (false,true)";
+        }
+        return r.first;
+    }
     template <class S> bool do_update( S&, int, long, bool, bool& inserted, std::false_type ) { inserted = false; return false; }
 
     template <class S> bool do_ins_f( S& st, int k, long v, std::true_type ) { int calls = 0; bool ok = st.insert( Item( k, v ), InsF{ v, &calls } ); if ( calls != ( ok ? 1 : 0 )) q_err = "insert functor called " + std::to_string( calls ) + " times for an insert that returned " + ( ok ? "true" : "false" ); return ok; }
     template <class S> bool do_ins_f( S& st, int k, long v, std::false_type ) { return st.insert( Item( k, v )); }
     template <class S> bool do_emplace( S& st, int k, long v, std::true_type ) { return st.emplace( k, v ); }
     template <class S> bool do_emplace( S& st, int k, long v, std::false_type ) { return st.insert( Item( k, v )); }
+    template <class S> static auto do_clear( S& st, int ) -> decltype( st.clear(), void()) { st.clear(); }
+    template <class S> static void do_clear( S&, long ) {}
+    template <class S> static auto has_clear( S& st, int ) -> decltype( st.clear(), true ) { return true; }
+    template <class S> static bool has_clear( S&, long ) { return false; }
     template <class S> bool do_unlink( S& st, int k, std::true_type ) { return st.unlink_orig( k ); }
     template <class S> bool do_unlink( S&, int, std::false_type ) { return false; }
     template <class S> bool do_erase( S& st, int k, std::true_type ) { return st.erase( k ); }
@@ -267,6 +283,9 @@ struct SetAdapter
         case DEL: { int i = h.call( t, DEL, k ); bool ok = do_erase( st, k, typename Caps::has_erase()); h.ret( i, ok ); break; }
         case DEL_F: { int i = h.call( t, DEL_F, k ); long v = 0; bool ok = do_del_f( st, k, v, typename Caps::has_del_f()); h.ret( i, ok, Caps::has_del_f::value && ok ? v : 0 ); if ( !Caps::has_del_f::value ) h.ops[size_t( i )].op = DEL; break; }
         case UNLINK: { int i = h.call( t, UNLINK, k, k * 10L ); bool ok = do_unlink( st, k, typename Caps::has_unlink()); h.ret( i, ok ); break; }
+        case CLEAR: { int i = h.call( t, CLEAR ); do_clear( st, 0 ); h.ret( i, 1 ); break; }
+        case SIZE: { int i = h.call( t, SIZE ); h.ret( i, long( st.size())); break; }
+        case EMPTY: { int i = h.call( t, EMPTY ); h.ret( i, st.empty() ? 1 : 0 ); break; }
         case ITER: case RITER: { if ( iters.capacity() < 16 ) iters.reserve( 16 ); do_iter( st, t, op.op == RITER, k, h, typename Caps::safe_iter(), typename Caps::has_riter()); break; }
         case HAS: { int i = h.call( t, HAS, k ); bool ok = st.contains( k ); h.ret( i, ok ); break; }
         case FIND_F: { int i = h.call( t, FIND_F, k ); long v = 0; bool ok = do_find_f( st, k, v, typename Caps::has_find_f()); h.ret( i, ok, ok ? v : 0 ); if ( !Caps::has_find_f::value ) h.ops[size_t( i )].op = HAS; break; }
@@ -326,7 +345,7 @@ struct SetAdapter
         if ( !r.failed ) { std::string e = final_checker<Set>::run( Prop()); if ( !e.empty()) r.fail( std::string( Prop()) + ":disposer", e ); }
         if ( !r.failed && !iters.empty()) { std::string e = check_iterations( h ); if ( !e.empty()) r.fail( "C19:iteration", e ); }
     }
-    SetSpec spec() const { SetSpec sp; sp.map_values = true; sp.update_replaces = Caps::update_replaces::value; return sp; }
+    SetSpec spec() const { SetSpec sp; sp.map_values = true; sp.update_replaces = Caps::update_replaces::value; if ( seq_mode ) sp.relaxed_minmax = false; return sp; }
 };
 
 // ---- grammars -------------------------------------------------------------------------------------------------------
